@@ -80,7 +80,7 @@ func Build(cfg Config) (string, error) {
 			}
 		}
 	}
-	vrtPath := cfg.Module + "/internal/vrt"
+	vrtPath := cfg.Module // the module root directory holds no Go files: the runtime is overlaid there (a real directory is needed for its assembly file)
 	ov := Overlay{Replace: map[string]string{}}
 	// runtime
 	ents, err := os.ReadDir(cfg.VrtDir)
@@ -88,8 +88,8 @@ func Build(cfg Config) (string, error) {
 		return "", err
 	}
 	for _, e := range ents {
-		if strings.HasSuffix(e.Name(), ".go") && !strings.HasSuffix(e.Name(), "_test.go") {
-			ov.Replace[filepath.Join(repo, "internal", "vrt", e.Name())] = filepath.Join(cfg.VrtDir, e.Name())
+		if (strings.HasSuffix(e.Name(), ".go") && !strings.HasSuffix(e.Name(), "_test.go")) || strings.HasSuffix(e.Name(), ".s") {
+			ov.Replace[filepath.Join(repo, "zzvrt_"+e.Name())] = filepath.Join(cfg.VrtDir, e.Name())
 		}
 	}
 	// harness files + removal of existing tests in those dirs
